@@ -390,7 +390,7 @@ func runConfig(c Config) result {
 	base := baseOf(c.File)
 	if c.Dir == "sentinel" {
 		for _, e := range []string{"sh", "bat"} {
-			os.WriteFile(filepath.Join(out, base+"."+e), []byte("SENTINEL "+e+"\n"), 0o644)
+			os.WriteFile(filepath.Join(out, base+"."+e), []byte(sentinelContent(e)), 0o644)
 		}
 		os.WriteFile(filepath.Join(out, "unrelated.txt"), []byte("unrelated\n"), 0o644)
 	}
@@ -690,6 +690,12 @@ func goEnv() []string {
 // buildTsh builds the real command from /repo's working tree into scratch and
 // puts /repo/std next to it. C19_OVERLAY (development only) names a go build
 // -overlay file, used to demonstrate detection on mutants without touching /repo.
+// sentinelContent is what a pre-existing output file holds: longer than any script the
+// enumerated programs produce, so an output that is not truncated keeps a visible tail.
+func sentinelContent(ext string) string {
+	return "SENTINEL " + ext + "\n" + strings.Repeat("# stale line of an older, longer output\n", 1500)
+}
+
 func buildTsh() string {
 	dir := drive.NewDir("tsh-")
 	bin := filepath.Join(dir, "tsh")
@@ -698,15 +704,19 @@ func buildTsh() string {
 		args = append(args, "-overlay", ov)
 	}
 	args = append(args, ".")
+	repo := os.Getenv("VERIF_REPO") // a scratch copy of the repository (mutant demonstrations); default /repo
+	if repo == "" {
+		repo = "/repo"
+	}
 	cmd := exec.Command("go", args...)
-	cmd.Dir = "/repo"
+	cmd.Dir = repo
 	cmd.Env = goEnv()
 	if outb, err := cmd.CombinedOutput(); err != nil {
 		harnessError("cannot build tsh from /repo: %v\n%s", err, outb)
 	}
 	std := filepath.Join(dir, "std")
 	os.MkdirAll(std, 0o755)
-	ents, _ := filepath.Glob("/repo/std/*.tsh")
+	ents, _ := filepath.Glob(filepath.Join(repo, "std", "*.tsh"))
 	for _, e := range ents {
 		b, _ := os.ReadFile(e)
 		os.WriteFile(filepath.Join(std, filepath.Base(e)), b, 0o644)
@@ -744,7 +754,7 @@ func replay(res result) func() findings.Replay {
 			sb.WriteString("mkdir -p \"$IN/\"" + shQuote(res.C.File) + "\n")
 		}
 		if res.C.Dir == "sentinel" {
-			sb.WriteString("printf 'SENTINEL sh\\n' > \"$OUT/\"" + shQuote(base+".sh") + "; printf 'SENTINEL bat\\n' > \"$OUT/\"" + shQuote(base+".bat") + "; printf 'unrelated\\n' > \"$OUT/unrelated.txt\"\n")
+			sb.WriteString("{ printf 'SENTINEL sh\\n'; for i in $(seq 1500); do echo '# stale line of an older, longer output'; done; } > \"$OUT/\"" + shQuote(base+".sh") + "; { printf 'SENTINEL bat\\n'; for i in $(seq 1500); do echo '# stale line of an older, longer output'; done; } > \"$OUT/\"" + shQuote(base+".bat") + "; printf 'unrelated\\n' > \"$OUT/unrelated.txt\"\n")
 		}
 		if res.C.Fault != "" {
 			e := strings.TrimPrefix(res.C.Fault, "outfile-is-dir:")
